@@ -80,6 +80,41 @@ def _zero_constraint_counts(
   efc_nnz_out[worldid] = 0
 
 
+@wp.kernel
+def _nnz_overflow(
+  # Data in:
+  njmax_in: int,
+  njmax_nnz_in: int,
+  # In:
+  efc_nnz_in: wp.array[int],
+  warn_overflow: bool,
+  # Data out:
+  ne_out: wp.array[int],
+  nf_out: wp.array[int],
+  nl_out: wp.array[int],
+  nefc_out: wp.array[int],
+  efc_jtdaj_nblock_out: wp.array[int],
+  overflow_out: wp.array[int],
+):
+  worldid = wp.tid()
+
+  efc_nnz = efc_nnz_in[worldid]
+  if efc_nnz > njmax_nnz_in:
+    if warn_overflow:
+      wp.printf("njmax_nnz overflow - please increase njmax_nnz to %u\n", efc_nnz)
+    overflow_out[worldid] = overflow_out[worldid] | types.OverflowType.NJMAX_NNZ
+    if nefc_out[worldid] > njmax_in:
+      overflow_out[worldid] = overflow_out[worldid] | types.OverflowType.NEFC
+
+    # rows that failed to allocate their non-zeros are incomplete (stale address, type and
+    # reference): report the overflow and drop this world's constraints instead of using them
+    ne_out[worldid] = 0
+    nf_out[worldid] = 0
+    nl_out[worldid] = 0
+    nefc_out[worldid] = 0
+    efc_jtdaj_nblock_out[worldid] = 0
+
+
 @wp.func
 def _efc_row(
   # Model:
@@ -5835,3 +5870,11 @@ def make_constraint(m: types.Model, d: types.Data):
             d.efc.frictionloss,
           ],
         )
+
+  if m.is_sparse:
+    wp.launch(
+      _nnz_overflow,
+      dim=d.nworld,
+      inputs=[d.njmax, d.njmax_nnz, efc_nnz, bool(m.opt.warn_overflow)],
+      outputs=[d.ne, d.nf, d.nl, d.nefc, d.efc.jtdaj_nblock, d.overflow],
+    )
